@@ -60,6 +60,8 @@ REQUESTS = [
     ("stream_count0", '{ me { tags @stream(initialCount: 0) friends @stream(initialCount: 2) { id } } }', {}, [[], ["u1.friends:items"]], None),
     ("plain_bg2", '{ me { name nn best { name nn } } boom }', {}, [["root.me", "u1.name"], ["root.me", "u1.best", "u2.name"]], None),
     ("plain_bg1", '{ me { name nn } other { name best { nn name } } }', {}, [["u1.name", "u2.name"], ["root.other", "u3.name"]], None),
+    ("initial_async", '{ me { name ... @defer(label: "d") { nn best { name } } } other { name friends @stream(label: "s") { id } } }', {},
+     [["u1.name", "u2.name"], ["root.me", "u2.friends:agen"]], None),
     ("deep", '{ me { best { ... @defer(label: "a") { name friends @stream(label: "s") { id ... @defer(label: "c") { nn } } } } } }', {"s": "a"},
      [["u2.name", "u3.nn"], ["u2.friends:agen"]], None),
 ]
